@@ -6,4 +6,3 @@ CONSTANTS
   MaxNow = 0
   Dev = {}
   Titles = {0, 1, 2}
-  LastOnly = FALSE
